@@ -52,6 +52,7 @@ from unified_planning.model import (
 from unified_planning.plans import ActionInstance
 from typing import (
     Callable,
+    Collection,
     Dict,
     Iterable,
     List,
@@ -166,6 +167,7 @@ def create_action_with_given_subs(
     old_action: Action,
     simplifier,
     subs: Dict[Expression, Expression],
+    used_names: Optional[Collection[str]] = None,
 ) -> Optional[Action]:
     """
     This method is used to instantiate the actions parameters to a constant.
@@ -179,6 +181,9 @@ def create_action_with_given_subs(
     original name instead of going through :func:`get_fresh_name`: since ``old_action``
     is still registered in ``problem`` under that name, `get_fresh_name` would otherwise
     treat it as colliding with itself and rename it needlessly.
+
+    ``used_names`` are the names already given to the actions created so far from the same
+    ``problem`` (see :func:`get_fresh_name`); the name of the returned action is not one of them.
     """
     naming_list: List[str] = []
     for param, value in subs.items():
@@ -191,7 +196,9 @@ def create_action_with_given_subs(
         new_action.name = (
             old_action.name
             if not subs
-            else get_fresh_name(problem, old_action.name, naming_list)
+            else get_fresh_name(
+                problem, old_action.name, naming_list, used_names=used_names
+            )
         )
         new_action._parameters = OrderedDict()
         if isinstance(new_action, SensingAction):
@@ -247,7 +254,9 @@ def create_action_with_given_subs(
         new_durative_action.name = (
             old_action.name
             if not subs
-            else get_fresh_name(problem, old_action.name, naming_list)
+            else get_fresh_name(
+                problem, old_action.name, naming_list, used_names=used_names
+            )
         )
         new_durative_action._parameters = OrderedDict()
         old_duration = new_durative_action.duration
@@ -336,8 +345,20 @@ def get_fresh_name(
     original_name: str,
     parameters_names: Sequence[str] = tuple(),
     trailing_info: Optional[str] = None,
+    used_names: Optional[Collection[str]] = None,
 ) -> str:
-    """This method returns a fresh name for the problem, given a name and an iterable of names in input."""
+    """
+    This method returns a fresh name for the problem, given a name and an iterable of names in input.
+
+    :param problem: The problem whose names must not be reused.
+    :param original_name: The name to start from.
+    :param parameters_names: Names appended to the `original_name`, separated by `_`.
+    :param trailing_info: Optionally, a last piece of information appended to the name.
+    :param used_names: Optionally, names that are taken although the `problem` does not (yet)
+        contain them; a compiler that creates several elements before adding them to the `problem`
+        (or that adds them to another problem) must pass the names it has already handed out.
+    :return: A name that is neither in the `problem` nor in the `used_names`.
+    """
     name_list = [original_name]
     name_list.extend(parameters_names)
     if trailing_info:
@@ -345,7 +366,9 @@ def get_fresh_name(
     new_name = "_".join(name_list)
     base_name = new_name
     count = 0
-    while problem.has_name(new_name):
+    while problem.has_name(new_name) or (
+        used_names is not None and new_name in used_names
+    ):
         new_name = f"{base_name}_{str(count)}"
         count += 1
     return new_name
